@@ -626,9 +626,99 @@ def r8_constructible(ctx, sym, h):
     ctx.floor('R8', 'assert_* classes', n, 35)
 
 
+OUTPUT_FAMILY = [('assert_output', 'equal', True), ('assert_not_output', 'equal', False),
+                 ('assert_output_contains', 'contains', True), ('assert_not_output_contains', 'contains', False),
+                 ('assert_output_regex', 'regex', True), ('assert_not_output_regex', 'regex', False)]
+
+
+def _norm_output(t):
+    import string as _string
+    t = ''.join(c for c in t.lower() if c not in _string.punctuation)
+    return sorted(l.split() for l in t.split('\n') if l.split())
+
+
+def r10_output_family(ctx, sym):
+    ctx.rule('R10', "output assertions executed abstractly: the relation (==, in, re.search) is applied to the text "
+                    "printed by the asserted execution itself - the call's own context for a proxied call result, the "
+                    "sandbox's whole output for a Sandbox operand - and to the expected text; an error operand never "
+                    "passes. Operands: own output vs. earlier output of the same sandbox x 3 expected texts x "
+                    "exact_strings")
+    from .. import symexec
+    mod = ctx.repo.module(RUNTIME)
+    n = 0
+    for cls_name, rel, positive in OUTPUT_FAMILY:
+        ci = sym.find_class(RUNTIME, cls_name)
+        m = sym.method(ci, 'condition') if ci is not None else None
+        if m is None:
+            raise AnalysisError("anchor vanished: %s.condition" % cls_name)
+        owner, fn = m
+        ctx.analysed_function(owner.module, fn)
+        for operand in ('call-result', 'sandbox', 'error'):
+            for text in ('Hello world!', 'banner', 'hello', 'zzz'):
+                for exact in (True, False):
+                    sb = Obj('sandbox', raw_output='banner\nHello world!\n', output=['banner', 'Hello world!'],
+                             exception=None)
+                    if operand == 'call-result':
+                        own = 'Hello world!'
+                        value = Obj('proxied-result', _actual_sandbox=sb, _actual_context_id=3, _actual_value=None)
+                        execution = Obj('execution', value=value, is_sandboxed=True, is_error=False,
+                                        context=[Obj('context', output='Hello world!\n', context_id=3)])
+                    elif operand == 'sandbox':
+                        own = 'banner\nHello world!'
+                        execution = Obj('execution', value=sb, is_sandboxed=False, is_error=False, context=None)
+                    else:
+                        own = None
+                        execution = Obj('execution', value=Obj('student-exception', exc_kind='ValueError'),
+                                        is_sandboxed=False, is_error=True, context=None)
+
+                    def eq(a, b, *args, **kw):
+                        ex = kw.get('_exact_strings', args[0] if args else False)
+                        if not isinstance(a, str) or not isinstance(b, str):
+                            raise Raised('TypeError', 'equality_test on %r / %r' % (a, b))
+                        return a == b if ex else _norm_output(a) == _norm_output(b)
+
+                    def search(pat, text_, *a):
+                        if not isinstance(pat, str) or not isinstance(text_, str):
+                            raise Raised('TypeError', 're.search on %r' % (text_,))
+                        return re.search(pat, text_)
+                    me = symexec.self_obj(owner.module, owner.name, fields={})
+                    fd = symexec.new_fd(sym, owner.module, calls={
+                        'equality_test': eq, 're.search': search,
+                        'isinstance': lambda o, t: (o is sb) if t == 'Sandbox-class' else (
+                            isinstance(o, Obj) and o.attrs.get('exc_kind') is not None if t in ('Exception-class',)
+                            else False)},
+                        extra={'Sandbox': 'Sandbox-class', 'Exception': 'Exception-class'})
+                    got, raised = symexec.run(fd, fn, [execution, Obj('text', value=text, is_error=False,
+                                                                      is_sandboxed=False), exact],
+                                              bound_self=me, what='%s.condition' % cls_name)
+                    n += 1
+                    if own is None:
+                        ok = raised is not None or truth(got) is True
+                        want = 'fires (or raises into the wrapper)'
+                    else:
+                        if rel == 'equal':
+                            holds = (own == text) if exact else _norm_output(own) == _norm_output(text)
+                        elif rel == 'contains':
+                            holds = (text in own) if exact else text.lower() in own.lower()
+                        else:
+                            holds = re.search(text, own) is not None
+                        holds = holds if positive else not holds
+                        ok = raised is None and truth(got) is (not holds)
+                        want = 'silent' if holds else 'fires'
+                    outcome = ('raises %s' % raised.kind) if raised is not None else (
+                        'fires' if truth(got) else 'silent')
+                    ctx.check(ok, 'R10', '%s[%s,%r,exact=%s]' % (cls_name, operand, text, exact), owner.module, fn,
+                              "%s on a %s operand whose own printed output is %r, expected text %r (exact_strings=%s): "
+                              "%s, the relation requires %s" % (cls_name, operand, own, text, exact, outcome, want),
+                              "print('banner') at top level, then %s(call('hi'), %r) where hi() prints "
+                              "'Hello world!'" % (cls_name, text))
+    ctx.floor('R10', 'output assertion cells', n, 100)
+
+
 def run(ctx):
     sym = Symbols(ctx.repo)
     h = Harness(ctx, sym)
+    r10_output_family(ctx, sym)
     outcomes = r_tables(ctx, sym, h)
     r2_pairs(ctx, sym, h, outcomes)
     r_equality_family(ctx, sym, h)
@@ -647,4 +737,4 @@ def run(ctx):
     r4c_comparisons(ctx, rcls, rmod, have, rid='R9')
     ctx.assume("the proxy model PV mirrors a transparent SandboxResult (guaranteed by C16); value-level behaviour of "
                "equality_test beyond the tabulated pairs (tolerance arithmetic, normalisation strings), assert_type's "
-               "subtype relation (C19 covers its inputs) and the output-assertion family are not decided")
+               "subtype relation (C19 covers its inputs) are not decided; the output-assertion family is decided for the operand it reads and the relation it applies (R10), with equality_test's normalisation taken as given")
